@@ -1,14 +1,12 @@
-// j5run runs the implementation side of one property's correspondence
+// run_<family> binaries run the implementation side of one property's correspondence
 // stream and its direct oracle, and writes cases_*.v + result.json.
-package main
+package vh
 
 import (
 	"flag"
 	"fmt"
 	"os"
 	"sort"
-
-	"verifharness/vh"
 )
 
 type runner func(cfg *Config) error
@@ -21,14 +19,16 @@ type Config struct {
 	Out    string
 	Replay string
 	Mult   int
-	R      *vh.Rand
+	R      *Rand
 }
 
 var registry = map[string]runner{}
 
-func register(name string, r runner) { registry[name] = r }
+// Register adds a property runner; called from init() of each cXX.go.
+func Register(name string, r func(cfg *Config) error) { registry[name] = r }
 
-func main() {
+// Main is the entry point shared by every run_<family> binary.
+func Main() {
 	cfg := &Config{}
 	flag.StringVar(&cfg.Prop, "prop", "", "property id (C01..C20)")
 	flag.Uint64Var(&cfg.Seed, "seed", 1, "PRNG seed")
@@ -56,14 +56,15 @@ func main() {
 		fmt.Fprintln(os.Stderr, err)
 		os.Exit(2)
 	}
-	cfg.R = vh.NewRand(cfg.Seed)
+	cfg.R = NewRand(cfg.Seed)
 	if err := r(cfg); err != nil {
 		fmt.Fprintf(os.Stderr, "j5run %s: %v\n", cfg.Prop, err)
 		os.Exit(3)
 	}
 }
 
-func (c *Config) scale(quick, thorough int) int {
+// Scale returns the case count for the tier (times -mult), or -n when given.
+func (c *Config) Scale(quick, thorough int) int {
 	if c.N > 0 {
 		return c.N
 	}
